@@ -318,6 +318,7 @@ class ProcessCapabilityExchange():
 
 
     def process_request(self):
+        has_host_ip_address = False
         for avp in self.message.avps:
             if ProcessDiameterMessage.is_valid_origin_host_avp(avp, self.connection):
                 self.checklist_mandatory_avps += 1
@@ -326,7 +327,11 @@ class ProcessCapabilityExchange():
                 self.checklist_mandatory_avps += 1
 
             elif ProcessDiameterMessage.is_valid_host_ip_address_avp(avp, self.connection):
-                self.checklist_mandatory_avps += 1
+                #: 1* { Host-IP-Address }: a multi-homed peer sends several, 
+                #: which fulfil the one mandatory entry together.
+                if not has_host_ip_address:
+                    self.checklist_mandatory_avps += 1
+                    has_host_ip_address = True
 
             elif ProcessDiameterMessage.is_valid_vendor_id_avp(avp, self.connection):
                 self.checklist_mandatory_avps += 1
@@ -346,6 +351,7 @@ class ProcessCapabilityExchange():
 
     def process_answer(self):
         ProcessDiameterMessage.process_answer_from_existing_pending_request(self.association, self.message)
+        has_host_ip_address = False
         for avp in self.message.avps:
             if ProcessDiameterMessage.is_valid_result_code_avp(avp):
                 self.checklist_mandatory_avps += 1
@@ -357,7 +363,11 @@ class ProcessCapabilityExchange():
                 self.checklist_mandatory_avps += 1
 
             elif ProcessDiameterMessage.is_valid_host_ip_address_avp(avp, self.connection):
-                self.checklist_mandatory_avps += 1
+                #: 1* { Host-IP-Address }: a multi-homed peer sends several, 
+                #: which fulfil the one mandatory entry together.
+                if not has_host_ip_address:
+                    self.checklist_mandatory_avps += 1
+                    has_host_ip_address = True
 
             elif ProcessDiameterMessage.is_valid_vendor_id_avp(avp, self.connection):
                 self.checklist_mandatory_avps += 1
